@@ -332,8 +332,12 @@ def _falsy(chk: Check, repo: Repo, schema: Schema) -> None:
             elif isinstance(n, ast.comprehension):
                 for c in n.ifs:
                     ctxs.append((c, n))
-            elif isinstance(n, ast.Call) and attr_path(n.func) == ("bool",) and len(n.args) == 1:
-                ctxs.append((n.args[0], n))
+            elif isinstance(n, ast.Call) and attr_path(n.func) in (("bool",), ("any",), ("all",), ("len",)) \
+                    and len(n.args) == 1:
+                # bool(x), and any(x) / all(x) / len(x) of a stored scalar used as a test of presence
+                par_ = getattr(n, "_parent", None)
+                if attr_path(n.func) == ("bool",) or isinstance(par_, (ast.If, ast.While, ast.IfExp, ast.BoolOp, ast.UnaryOp)):
+                    ctxs.append((n.args[0], n))
             elif isinstance(n, ast.BoolOp):
                 par = getattr(n, "_parent", None)
                 if not isinstance(par, (ast.If, ast.While, ast.IfExp, ast.BoolOp, ast.UnaryOp, ast.comprehension)):
@@ -357,6 +361,8 @@ def _falsy(chk: Check, repo: Repo, schema: Schema) -> None:
                     bad = e.attr
                 if bad is None and isinstance(e, (ast.Name, ast.Attribute)):
                     t = pf.ptype(e, pf.envs.get(f.qualname, {}), f)
+                    if t is not None and t[0] == "scalar" and t[1] == "*":
+                        bad = "<node message>.%s" % t[2]        # the uuid field every node message has
                     if t is not None and t[0] == "scalar" and t[1] in schema.messages:
                         fld = schema.messages[t[1]].fields.get(t[2])
                         if fld is not None and (fld.type in INT_SCALARS or fld.type == "string"
